@@ -127,7 +127,7 @@ def ends_mid_char(data):
 
 
 # ----------------------------------------------------------------------------------- events
-def _event_classes():
+def _event_classes(falsy=False):
     from curtsies import events
 
     class Ev(events.Event):
@@ -144,6 +144,11 @@ def _event_classes():
         def __repr__(self):
             return f"<sched{self.src}#{self.n}@{self.when - BASE:+g}>"
 
+    if falsy:
+        # an application's own event class may well be falsy (an event that carries a - possibly empty - sequence and defines __len__):
+        # it is an event all the same
+        Ev.__len__ = lambda self: 0
+        SEv.__len__ = lambda self: 0
     return Ev, SEv
 
 
@@ -301,7 +306,7 @@ class Rig:
         import curtsies.input as ci
         from curtsies import events
         self.ci, self.events = ci, events
-        self.Ev, self.SEv = _event_classes()
+        self.Ev, self.SEv = _event_classes(bool(self.case.get("falsy_events")))
         self.fds_before = _open_fds()
         if self.transport == "pty":
             self.wfd, self.in_fd = os.openpty()
@@ -895,6 +900,16 @@ def wakeup_cases():
     for pt in (None, 8):
         for se in (True, False):
             base = dict(suite="wakeups", transport="pty", pt=pt, keynames="bytes", sigint_event=se)
+            if se:
+                # events of an application class that is FALSY (defines __len__, holds nothing): injected between requests, at the entry of
+                # and during a wait, scheduled - delivered exactly once like any other event
+                fb = dict(suite="wakeups", transport="pipe", pt=pt, keynames="bytes", sigint_event=False, falsy_events=True)
+                for T in (SMALL, 1.0):
+                    yield dict(fb, ops=[_req(T, [("blocked", ["ts", 0])]), _req(0)])
+                    yield dict(fb, ops=[_req(T, [("entry", ["ts", 0])]), _req(0)])
+                    yield dict(fb, ops=[["ts", 0], ["ev", 0], _req(T), _req(0), _req(0)])
+                    yield dict(fb, ops=[["sched", 0, -1.0], ["sched", 1, 0.1], _req(T), _req(T)])
+                    yield dict(fb, ops=[["bytes", hx(b"k")], _req(T, [("entry", ["ts", 0])]), _req(0), _req(0)])
             for T in (SMALL, 1.0, 8.0):
                 for k in (1, 2, 3):
                     hooks = [(("blocked" if i == 0 else f"blocked{i + 1}"), sig) for i in range(k)]
